@@ -257,3 +257,57 @@ h_fmt!(c14_t_bin_bvfix_l128, 131, Binary, "b", bvfix(128), u128);
 h_fmt!(c14_q_dec_bvfix_l3, 4, Display, "", bvfix(3), u64);
 h_fmt!(c14_q_dec_bvdyn1_l3, 9, Display, "", bvdyn1(3), u64);
 h_fmt!(c14_t_dec_f8x1_l3, 6, Display, "", f8x1(3), u8);
+
+// ---- end-to-end: the real `pad_integral`, default format specification -----------------------
+// No stub on `pad_integral`: the bytes written to the sink by `{:x}` etc. of the vector and of
+// the native integer must be identical. This does not rely on *how* the implementation
+// produces its output (it may call the formatting machinery several times), at the price of a
+// fixed (default) format specification.
+pub struct ByteSink {
+    pub buf: [u8; 48],
+    pub n: usize,
+}
+impl fmt::Write for ByteSink {
+    fn write_str(&mut self, s: &str) -> fmt::Result {
+        let b = s.as_bytes();
+        let mut i = 0;
+        while i < b.len() {
+            if self.n < 48 {
+                self.buf[self.n] = b[i];
+            }
+            self.n += 1;
+            i += 1;
+        }
+        Ok(())
+    }
+}
+
+macro_rules! h_fmt_e2e {
+    ($name:ident, $unw:literal, $spec:literal, $a:expr, $nat:ty) => {
+        #[cfg_attr(kani, kani::proof)]
+        #[cfg_attr(kani, kani::unwind($unw))]
+        #[cfg_attr(kani, kani::stub(alloc::string::String::push, k::push_stub))]
+        #[cfg_attr(kani, kani::stub(alloc::string::String::reserve, k::reserve_stub))]
+        pub fn $name() {
+            use std::fmt::Write;
+            let (a, ra) = $a;
+            nd::assume(ra.v.fits(<$nat>::BITS as usize));
+            let x = ra.v.lo as $nat;
+            w!(ra.v.limb(0) == 0 && !ra.v.is_zero(), "low 64-bit word zero below a non-zero word");
+            w!(ra.v.is_zero(), "value zero");
+            let mut s1 = ByteSink { buf: [0; 48], n: 0 };
+            let mut s2 = ByteSink { buf: [0; 48], n: 0 };
+            assert!(write!(s1, $spec, a).is_ok(), "C14: formatting the bit vector returned an error");
+            assert!(write!(s2, $spec, x).is_ok(), "HARNESS: formatting the native integer returned an error");
+            assert!(s1.n == s2.n && s1.n <= 48, "C14: output length differs from the native integer's");
+            let mut i = 0;
+            while i < s1.n {
+                assert!(s1.buf[i] == s2.buf[i], "C14: output differs from the native integer's");
+                i += 1;
+            }
+        }
+    };
+}
+h_fmt_e2e!(c14_t_e2e_lhex_bvd2_l70, 21, "{:x}", bvd2(70), u128);
+h_fmt_e2e!(c14_q_e2e_uhex_bvdyn2_l70, 21, "{:#X}", bvdyn2(70), u128);
+h_fmt_e2e!(c14_t_e2e_lhex_f64x2_l70, 21, "{:x}", f64x2(70), u128);
